@@ -38,7 +38,7 @@ UNPROVEN = ['adc leaves the input frame untouched: sampled (frame frozen read-on
 ASSUMPTIONS = ['saturation_capacity 0 is treated like None by the code (`if saturation_capacity:`) and by the model',
                'integer electron frames: the powers x**order must be representable in the frame dtype (NumPy wraps silently: '
                'adc(int16 [[58]], gain=[0.5, 0, 1.25]) returns 0, not 97628); float overflow/rounding likewise not modelled',
-               'floor is discontinuous: when the exact polynomial value is within 1e-9 (relative) of an integer a one-DN difference is '
+               'floor is discontinuous: when the exact polynomial value is within 1e-13 (relative to its largest term) of an integer a one-DN difference is '
                'accepted (NumPy float64 x**3 is not correctly rounded: 77.0**3 = 456532.99999999994)',
                'adc_monotone: any gain curve non-decreasing on [0, cap] (hypothesis on the curve) and inputs >= 0 (a polynomial with an even '
                'power is not increasing on negatives); for scalar/per-pixel gain >= 0 monotone on all inputs',
@@ -138,18 +138,19 @@ def _adc_ref(c):
         else: co = [gv[k * R * C + p] for k in range(g['n'])]
         n = len(co)
         v = sum(co[k] * xv ** (n - k) for k in range(n))
-        dn.append(max(0, math.floor(v))); vals.append(v)
+        dn.append(max(0, math.floor(v))); vals.append((v, sum(abs(co[k] * xv ** (n - k)) for k in range(n))))
     warns = bool(c['warn'] and cap is not None and any(v > cap for v in x))
     return dn, warns, vals
 
 def _dn_mismatch(c, got):
     """index of the first pixel whose DN differs from the exact reference, or None. float64 `x**3` in NumPy is not correctly
-    rounded (77.0**3 = 456532.99999999994), so when the exact polynomial value is an integer (or within 1e-9 relative of
+    rounded (77.0**3 = 456532.99999999994), so when the exact polynomial value is an integer (or within 1e-13 relative of
     one) the floor may legitimately fall on either side: that one-DN ambiguity at the discontinuity is not a disagreement."""
     dn, _, vals = _adc_ref(c)
-    for p, (g, d, v) in enumerate(zip(got, dn, vals)):
+    for p, (g, d, (v, mag)) in enumerate(zip(got, dn, vals)):
         if g == d: continue
-        near = abs(v - round(v)) <= 1e-9 * (1 + abs(v))
+        # a few ulps of the largest term (NumPy's x**3 is off by one ulp) — NOT a fixed 1e-9: a value 1e-10 below an integer must floor down
+        near = abs(v - round(v)) <= 1e-13 * (1 + mag)
         if near and abs(g - d) == 1 and g >= 0: continue
         return p
     return None
@@ -200,9 +201,40 @@ def gen_adc(rng):
     c['dtype'] = ok[int(rng.integers(0, len(ok)))]
     return c
 
+def gen_extreme(rng):
+    """inputs at the seams: wavelengths a hair inside/outside the QE band in every unit (incl. metres, where absolute tolerances bite),
+    gain-polynomial values a hair below an integer, large and small physical magnitudes"""
+    t = int(rng.integers(0, 4))
+    if t == 0:
+        R, C = pick_shape(rng, 3); lo, hi = int(rng.integers(400, 500)), int(rng.integers(700, 900))
+        mid = sorted(set(int(x) for x in rng.integers(lo + 20, hi - 20, 3)))
+        grid = [lo] + mid + [hi]
+        eps = [3, 30, 300][int(rng.integers(0, 3))]       # 0.003 .. 0.3 nm
+        wave = [f'{lo * 1000 - eps}/1000', f'{lo * 1000 + eps}/1000', mid[0], f'{hi * 1000 - eps}/1000', f'{hi * 1000 + eps}/1000']
+        unit = ['m', 'm', 'um', 'nm', 'angstrom'][int(rng.integers(0, 5))]
+        q = {'kind': 'spectrum', 'grid_nm': grid, 'val': _rat([int(x) for x in rng.integers(2, 9, len(grid))], 8), 'unit': unit, 'flat': False}
+        return {'kind': 'collect', 'nw': 5, 'ns': 5, 'shape': [R, C], 'img': _cube(rng, 5, R, C, signed=False), 'wave_nm': wave, 'two_d': False,
+                'waveunit': unit if rng.integers(0, 2) else ['m', 'nm'][int(rng.integers(0, 2))], 'qe': q, 'extreme': 'band-edge'}
+    R, C = pick_shape(rng, 4)
+    gk = ['scalar', 'poly', 'pixel', 'pixelpoly'][int(rng.integers(0, 4))]
+    n = 1 if gk in ('scalar', 'pixel') else 2
+    cnt = {'scalar': 1, 'poly': 1, 'pixel': R * C, 'pixelpoly': R * C}[gk]
+    k = int(rng.choice([30, 34, 40]))
+    den = 2 ** k
+    one_minus = den - 1                                 # gain 1 - 2^-k: value x - x*2^-k, a hair below the integer x
+    nums = ([0] * cnt if n == 2 else []) + [one_minus] * cnt
+    img = _rat(rng.integers(1, 17, R * C), 1)
+    cap = None if rng.integers(0, 2) else _rat([int(rng.integers(4, 14))], 1)
+    c = {'kind': 'adc', 'shape': [R, C], 'img': img, 'intframe': bool(rng.integers(0, 2)), 'frame_dtype': 'float64',
+         'gain': {'kind': gk, 'n': n, 'num': nums, 'den': den}, 'cap': cap, 'warn': False, 'dtype': [None, 'uint16', 'int32'][int(rng.integers(0, 3))],
+         'mono_curve': False, 'extreme': 'just-below-integer'}
+    if c['intframe']: c['frame_dtype'] = ['int64', 'int16', 'uint8'][int(rng.integers(0, 3))]
+    return c
+
 def generate(rng, tier):
     n = {'quick': 240, 'thorough': 5000, 'search': 1500}[tier]
     out = []
+    for _ in range({'quick': 12, 'thorough': 250, 'search': 400}[tier]): out.append(gen_extreme(rng))
     for k in range(n):
         t = k % 12
         if t in (0, 1, 2): out.append(gen_collect(rng))
@@ -241,6 +273,7 @@ def nontrivial(c):
 
 def tags(c):
     k = c['kind']; t = [k]
+    if c.get('extreme'): t.append('extreme:' + c['extreme'])
     if k == 'collect' and c.get('ns', c['nw']) != c['nw']: t.append('collect:slices!=wavelengths' + (':broadcast' if c['ns'] == 1 else ':refused'))
     if k == 'collect': t += ['qe:' + c['qe']['kind'] + (':' + c['qe']['unit'] if c['qe']['kind'] == 'spectrum' else ''), 'waveunit:' + c['waveunit']]
     if k == 'bayer':
@@ -332,6 +365,8 @@ def _qe_ref(q, wave_nm, nw):
     g = q['grid_nm']; v = _fr(q['val'])
     out = []
     for w in wave_nm:
+        w = Fr(w)
+        if w < g[0] or w > g[-1]: out.append(Fr(0)); continue          # outside the band: fill_value = 0
         k = max(i for i in range(len(g) - 1) if g[i] <= w)
         out.append(v[k] + (v[k + 1] - v[k]) * Fr(w - g[k], g[k + 1] - g[k]))
     return out
